@@ -259,6 +259,53 @@ def r6_sealed_and_typed(cx):
     # rotation emissions sealed: shared with C02.R1 (rotation-sealed obligations)
 
 
+def r7_one_proposal_per_id(cx):
+    """A proposal (own ephemeral secret) is created exactly when the own message id advances: the retransmission
+    path must re-send the public key of the *stored* secret, never replace it (the peer may already have derived the
+    key from the first transmission)."""
+    prog = cx.prog
+    cyc = A.method(prog, "RotationState", "cycle")
+    cx.touch(cyc)
+    # functions that may store to RotationState.proposed
+    writers = set(b.did for (b, bi, k, s) in field_writes(prog, "RotationState", "proposed"))
+    changed = True
+    while changed:
+        changed = False
+        for b in prog.bodies:
+            if b.did not in writers and any(c in writers for _k, c, _bb in prog.cg.callees(b.did)):
+                if b.did != cyc.did:
+                    writers.add(b.did)
+                    changed = True
+    idst = [bi for bi, si, s in cyc.stmts() if s["k"] == "assign" and place_is_field(s["place"], "RotationState", "message_id")]
+    cx.floor("id-advance", len(idst), 1, "stores to message_id in cycle")
+    sites = []
+    for bi, si, s in cyc.stmts():
+        if s["k"] == "assign" and place_is_field(s["place"], "RotationState", "proposed"):
+            sites.append((bi, "store"))
+    for ci, ct in cyc.calls():
+        if any(d in writers for _k, d in prog.cg.resolve(cyc, ct)):
+            for a in ct["args"]:
+                p = op_place(a)
+                if p is not None and cyc.place_ty(p).k == "ref" and cyc.place_ty(p).d.get("mut") and root_place(cyc, p)["l"] == 1:
+                    sites.append((ci, "call " + ct["callee"]["name"]))
+        if callee_is(ct, "option::Option::take", "option::Option::replace", "option::Option::insert") and ct["args"]:
+            r = deep_root(cyc, ct["args"][0])
+            if r is not None and place_is_field(r, "RotationState", "proposed"):
+                sites.append((ci, "call " + ct["callee"]["name"]))
+    cx.floor("proposal-writes", len(sites), 1, "writes of the own proposal in cycle")
+    for bi, what in sites:
+        cx.check("proposal-only-with-new-id:%s" % what, any(cyc.cfg.dominates(x, bi) for x in idst), site_of(cyc, bi),
+                 "cycle() replaces the own proposal only on the path that advances the message id (a retransmission keeps the stored secret)")
+    # the retransmitted public key is computed from the stored secret
+    cpk = [(ci, ct) for ci, ct in cyc.calls() if callee_is(ct, "RotationState::compute_public_key")]
+    ok = False
+    for ci, ct in cpk:
+        r = deep_root(cyc, ct["args"][0])
+        if r is not None and place_is_field(r, "RotationState", "proposed") and not any(cyc.cfg.dominates(x, ci) for x in idst):
+            ok = True
+    cx.check("retransmit-recomputes-public-key", ok, site_of(cyc), "the retransmission path derives the proposed public key from the stored secret (compute_public_key(&self.proposed))")
+
+
 RULES = [
     ("C07.R1", r1_constants_by_site, "use_for_sending constants by site"),
     ("C07.R2", r2_installed_before_leaving, "every rotated key is installed, unchanged, before the reply leaves"),
@@ -266,6 +313,7 @@ RULES = [
     ("C07.R4", r4_stale_ids_ignored, "stale ids are ignored before any mutation; own ids advance by 2"),
     ("C07.R5", r5_slot_arithmetic, "slot arithmetic agrees (one modulus = number of slots)"),
     ("C07.R6", r6_sealed_and_typed, "rotation messages are typed; user sends cannot use the rotation type"),
+    ("C07.R7", r7_one_proposal_per_id, "one proposal per own message id: retransmission keeps the stored secret"),
 ]
 
 LEVEL_TEXT = ("Static discipline rules on MIR for install-before-announce / switch-on-confirmation: a receive-only key is emitted exactly where a confirmation "
